@@ -27,24 +27,31 @@ ID = "C13"
 LEVEL = "proof"
 ENGINES = ["lean-model", "purediff", "kopfsim"]
 TIE = ("S: every call of the real process_peering_event (direct calls on generated status contents + all calls inside "
-       "multi-operator simulations) replayed through the Lean `decideEv`; D exhaustive for keepalive period / touch payload")
-LEVEL_TEXT = ("Lean theorems for all status contents, all operator sets and all label lists (starts, keep-alives, graceful exits, "
-              "kills, deliveries, passing time, foreign writes): paused_iff (+_step), exactly_top, at_most_one_active, "
-              "equal_priority_both_paused, failover_exit, failover_kill (+ wake_at_deadline: sleep-to-deadline then self-touch), "
-              "renewal (lifetime >= 1, 2*latency < min(5, lifetime-1) s resp. the spare half second for lifetime 1: "
-              "renewal_lifetime_one, repaired F1), withdraw_on_exit + exit_interrupts_sleep + withdrawn_stays (a graceful exit "
-              "ends the sleeping call, the record never comes back: repaired F2), dead_cleaned (+_step; the own record is "
-              "never cleaned: own_record_not_cleaned, repaired F5a). The transition system delivers the current status "
-              "atomically: stale views (F4) and same-identity restarts (F5) are outside it. The model is hand-written; its "
-              "decision function is compared with the real process_peering_event per call, keep-alive arithmetic exhaustively. "
-              "The pause *effects* (streams closed, daemons stopped, nothing handled beyond queued events, nothing handled twice) "
-              "are checked by the Python oracle on whole-operator simulations only (their models are C19/C09/C02).")
+       "multi-operator simulations) replayed through the Lean `decideEv`; D exhaustive for keepalive period / touch payload; "
+       "S on the transition system: every write to the peering object in the simulations replayed through `Status.patch` "
+       "(C13.write) and every call that cleans replayed as a `deliverStale` step on (view, status at landing) (C13.stale)")
+LEVEL_TEXT = ("Lean theorems. Per call, all status contents: paused_iff, turned_iff, dead_cleaned, wake_at_deadline. Transition system "
+              "(any number of operators; labels start, keepalive(lag), exit, exitLost, kill, deliver (current view), deliverStale (old "
+              "view, clean lands on the current status), tick, expire, foreign, wake(lag)): for ALL label lists withdrawn_stays(_from), "
+              "stale_verdict; under the guard 'every processed view is current' the *_partial theorems exactly_top_partial, "
+              "at_most_one_active_partial, settle_partial, failover_exit_partial, failover_lost_exit_partial (+ "
+              "equal_priority_both_paused); without the guard the clause is FALSE of the code: stale_view_two_active_witness (= open "
+              "finding F4, replayed on the real code; F5 is the same root). Timely runs (every touch() <= B ticks, 2B < min(5, L-1) s "
+              "resp. 1/2 s for L = 1, no old views, nobody writes under an operator's identity): own_record_fresh (Good.own as an "
+              "invariant), backed by the arithmetic of keepalive_period / renewal / renewal_lifetime_one / keepalive_writes. Progress "
+              "and possibility: resume_after_expiry (expiry -> the sleeping call can wake -> touch -> delivery -> active), "
+              "convergence_possible (from ANY state a schedule leads to exactly-top). withdraw_on_exit is the landed withdrawal; a "
+              "lost one is exitLost = kill. NO theorem for the pause effects (watch streams closed, daemons stopped, no handling "
+              "beyond queued events, nothing handled twice), for inevitability of convergence, or for API failures inside a call: "
+              "these are covered by the simulation oracle only. The model is hand-written; every part of it is compared with the "
+              "real code (see tie).")
 THEOREMS = [("Kopf.Props.C13", "Kopf.C13." + n) for n in [
-    "paused_iff", "turned_spec", "paused_iff_step", "exactly_top", "at_most_one_active", "equal_priority_both_paused",
-    "failover_exit", "failover_kill", "wake_at_deadline", "expire_then_dead", "keepalive_period", "renewal",
-    "keepalive_period_one", "renewal_lifetime_one", "lifetime_zero_withdraws", "keepalive_writes", "withdraw_on_exit",
-    "exit_interrupts_sleep", "withdrawn_stays_from", "withdrawn_stays", "dead_cleaned", "own_record_not_cleaned",
-    "dead_cleaned_step"]]
+    "paused_iff", "turned_iff", "dead_cleaned", "wake_at_deadline",
+    "exactly_top_partial", "at_most_one_active_partial", "equal_priority_both_paused",
+    "stale_view_two_active_witness", "stale_verdict", "settle_partial", "failover_exit_partial", "failover_lost_exit_partial",
+    "resume_after_expiry", "convergence_possible",
+    "keepalive_period", "renewal", "renewal_lifetime_one", "own_record_fresh", "keepalive_writes",
+    "withdraw_on_exit", "withdrawn_stays_from", "withdrawn_stays"]]
 RULE = ("(1) direct calls: status of 0-5 records over a small identity pool (own record in/out), priority around the own one / "
         "missing / garbled, lifetime ints incl. 0,1,negative / numeric strings / garbage / missing, lastseen placed exactly on the "
         "deadline and +-1 tick / far past / future / missing / null / unparsable / naive & Z formats, unknown keys, non-mapping "
@@ -55,7 +62,7 @@ RULE = ("(1) direct calls: status of 0-5 records over a small identity pool (own
         "lifetime), per-operator peering-event delivery delays (12%: later than some keep-alive margin = the late regime, judged "
         "only by the checks that do not presume timely delivery), 25% restarts under the same identity. A case is one "
         "process_peering_event call (direct or simulated) "
-        "or one keep-alive round; distinct & non-trivial = distinct abstracted (toggle-before, #dead, #prio, #same, own-record, "
+        "or one keep-alive round or one write / stale-view step of the transition system; distinct & non-trivial = distinct abstracted (toggle-before, #dead, #prio, #same, own-record, "
         "error, sleep-kind, touch) tuples with a non-empty status.")
 TRUSTED = ["harness/sim (virtual-time loop, fake API server incl. merge-patch of `status`), harness/props/sim_c13.py "
            "(attribute-level observation of toggles / peering calls / handlers / watch requests)",
@@ -63,11 +70,23 @@ TRUSTED = ["harness/sim (virtual-time loop, fake API server incl. merge-patch of
            "the history oracle's settle window W = max delivery delay + 1 s (after a change of who is live, every operator must "
            "have reacted within W)"]
 ASSUMPTIONS = ["one virtual clock shared by all operators (no clock skew between operators)",
-               "floats in peering records are not generated (the Lean JSON has integers only)",
+               "floats in peering records are not generated (the Lean JSON has integers only); settings.peering.lifetime is an int "
+               "(a float like 1.5 is out of contract: it sleeps as 1.5 but advertises int(1.5))",
                "a record without `lastseen` is read as 'just seen' (what the code does); the oracle treats it as live",
                "histories use lifetimes >= 1 s and API latency 1/64 s",
-               "the transition system hands an operator the CURRENT status atomically; late views (F4), same-identity restarts (F5) "
-               "and the daemon killer (F3) are outside the Lean model and covered by the simulation oracle only"]
+               "LATENCY GUARD of renewal / own_record_fresh: every touch() call takes at most B with 2*B < min(5, lifetime-1) s "
+               "(1/2 s for lifetime 1) and asyncio.sleep wakes on time; touch() goes through api.request's retry/backoff, so a single "
+               "5xx/429 breaks the bound (C12's subject) - then the record may expire before it is renewed",
+               "the `*_partial` theorems hold under 'every processed view is current'; real calls always see an older view (watch latency): "
+               "F4/F5 are what happens when the view is older than the keep-alive margin / than a restart",
+               "an API error inside clean()/touch() of process_peering_event makes the call raise and (since 9ef1bcb) the operator stop: "
+               "`deliver` cannot fail in the model; likewise a garbled record (any theorem is silent on `= .error`): one malformed "
+               "record written by anybody raises in every peer",
+               "the transition system starts operators pre-paused (mandatory peering, as in the simulations); with optional peering an "
+               "operator is active until its first peering event",
+               "ORACLE-ONLY clauses (no Lean theorem): paused => watch streams closed; daemons stopped; no change handling beyond events "
+               "already queued; no handler executed twice because of the pause; convergence is inevitable (only possible: convergence_possible); "
+               "F3 (daemon killer) regression"]
 
 TPS = sim_c13.TPS
 LAT = 1.0 / 64
@@ -236,6 +255,31 @@ def model_view(out: Any, interrupted: bool) -> Any:
         v["sleep"] = m["sleep"]
         v["touch"] = m["touch"]
     return v
+
+
+def wf_status(status: Any) -> list | None:
+    """A status as the transition system holds it: [[identity, {priority, lifetime, lastseen(ticks)}], …] in document order;
+    None when some record is not of that shape (then the LTS-level ties skip it). Unknown keys are dropped on both sides."""
+    if status is None:
+        return []
+    if not isinstance(status, dict):
+        return None
+    out = []
+    for k, r in status.items():
+        r = wf_rec(r)
+        if r is None:
+            return None
+        out.append([k, r])
+    return out
+
+
+def wf_rec(r: Any) -> dict | None:
+    if not isinstance(r, dict) or type(r.get("priority")) is not int or type(r.get("lifetime")) is not int:
+        return None
+    t = sim_c13.iso_ticks(r.get("lastseen"))
+    if not isinstance(t, int) or isinstance(t, bool):
+        return None
+    return {"priority": r["priority"], "lifetime": r["lifetime"], "lastseen": t}
 
 
 # =================================================================================================
@@ -606,6 +650,12 @@ def oracle_history(ctx: Ctx, sc: dict, tr: dict, full: bool = False) -> dict:
                 mine = [q for q in tr["requests"] if q["res"] == "peering" and q["method"] == "PATCH" and q["who"] == i["who"]
                         and q.get("response") == 200 and q["t"] >= i["t_stop_req"]
                         and i["identity"] in ((q.get("payload") or {}).get("status") or {})]
+                tried = [q for q in tr["requests"] if q["res"] == "peering" and q["method"] == "PATCH" and q["who"] == i["who"]
+                         and q["t"] >= i["t_stop_req"] and i["identity"] in ((q.get("payload") or {}).get("status") or {})
+                         and ((q.get("payload") or {}).get("status") or {})[i["identity"]] is None]
+                if tried and not any(q.get("response") == 200 for q in tried):
+                    stats["withdrawals_lost_to_api_errors"] = stats.get("withdrawals_lost_to_api_errors", 0) + 1
+                    continue            # the API refused every withdrawal attempt: the record can only expire (environment, not kopf)
                 vals = [q["payload"]["status"][i["identity"]] for q in mine]
                 if None in vals and any(v is not None for v in vals[vals.index(None) + 1:]):
                     ctx.oracle_fail(f"operator {i['name']} withdrew its record on exit, then a sleeping process_peering_event woke up and "
@@ -870,7 +920,8 @@ def check_keepalive(ctx: Ctx) -> None:
 
 
 def check_histories(ctx: Ctx, scenarios: list[dict], reqs: list, impls: list, wheres: list, flags: list,
-                    ka_reqs: list, ka_impls: list, ka_where: list) -> None:
+                    ka_reqs: list, ka_impls: list, ka_where: list, lts: tuple | None = None) -> None:
+    lts_reqs, lts_impls, lts_where = lts if lts is not None else ([], [], [])
     results = _run_pool(scenarios, wall=60.0)
     for sc, res in zip(scenarios, results):
         tr = res["trace"]
@@ -902,6 +953,49 @@ def check_histories(ctx: Ctx, scenarios: list[dict], reqs: list, impls: list, wh
             wheres.append({"scenario": sc, "call": {k: v for k, v in p.items() if k != "status"}, "status": p["status"]})
             ctx.case(key=_shape_of_call(p["status"], p["me"], p["prio"], p["toggle_before"], impl), nontrivial=bool(p["status"]),
                      sample={"scenario_seed": sc.get("seed"), "call": p} if len(reqs) % 4001 == 7 else None)
+        # ---- LTS-level ties: the write semantics (`Status.patch`) and the stale-view step (`deliverStale`) -----------------
+        who_of = {i["inc"]: i["who"] for i in tr["incs"]}
+        for w in tr.get("writes", []):
+            b, a_, pt = wf_status(w["before"]), wf_status(w["after"]), w["patch"]
+            if b is None or a_ is None or not isinstance(pt, dict):
+                ctx.count("lts.write", "skipped (not well-formed)")
+                continue
+            pl = []
+            for k, v in pt.items():
+                vv = None if v is None else wf_rec(v)
+                if v is not None and vv is None:
+                    pl = None
+                    break
+                pl.append([k, vv])
+            if pl is None:
+                ctx.count("lts.write", "skipped (not well-formed)")
+                continue
+            lts_reqs.append(["C13.write", b, pl])
+            lts_impls.append(a_)
+            lts_where.append({"scenario": sc, "write": w})
+            ctx.count("lts.write", "touch" if any(v is not None for v in pt.values()) else "erase")
+            for k, v in pt.items():
+                if isinstance(v, dict) and wf_rec(v) is not None:
+                    lag = sim_c13.ticks(w["t"]) - wf_rec(v)["lastseen"]
+                    ctx.count("lts.touch_lag_ticks", lag)
+                    bound = 1 + sim_c13.ticks(max([0.0] + [float(x) for x in (sc.get("patch_latency") or {}).values()]))
+                    if not (0 <= lag <= bound):
+                        ctx.tie_fail(f"a record landed {lag} ticks after it was stamped: the harness' API latency exceeds the bound B the "
+                                     f"timely-run theorems assume", {"scenario": sc, "write": w})
+        for p in tr["pcalls"]:
+            if not p["cleaned"] or p["toggle_before"] is None or p["error"] not in (None, "cancelled"):
+                continue
+            view = wf_status(p["status"])
+            ws = [w for w in tr.get("writes", []) if w["who"] == who_of.get(p["inc"]) and sim_c13.ticks(w["t_issue"]) == p["t0"]
+                  and isinstance(w["patch"], dict) and list(w["patch"].keys()) == p["cleaned"] and all(v is None for v in w["patch"].values())]
+            if view is None or len(ws) != 1 or wf_status(ws[0]["before"]) is None or wf_status(ws[0]["after"]) is None:
+                ctx.count("lts.stale", "skipped")
+                continue
+            lts_reqs.append(["C13.stale", {"u": TPS, "current": wf_status(ws[0]["before"]), "view": view, "me": p["me"], "prio": p["prio"],
+                                           "paused": p["toggle_before"], "now": p["t0"]}])
+            lts_impls.append({"status": wf_status(ws[0]["after"]), "paused": p["toggle_after"]})
+            lts_where.append({"scenario": sc, "call": {k: v for k, v in p.items() if k != "status"}, "view": p["status"], "write": ws[0]})
+            ctx.count("lts.stale", "view==current" if view == wf_status(ws[0]["before"]) else "view older than current")
         for kk in tr["ka"]:
             if kk["lifetime"] is None:
                 continue
@@ -933,18 +1027,25 @@ def run(ctx: Ctx) -> None:
     histories += [gen_history(ctx.rng, ctx.seed * 1_000_000 + i) for i in range(n_hist)]
     check_keepalive(ctx)
     check_direct(ctx, direct_cases, reqs, impls, wheres, flags)
-    check_histories(ctx, histories, reqs, impls, wheres, flags, ka_reqs, ka_impls, ka_where)
+    lts: tuple = ([], [], [])
+    check_histories(ctx, histories, reqs, impls, wheres, flags, ka_reqs, ka_impls, ka_where, lts)
     for name, d in witnesses:
         run_witness(ctx, name, d)
     try:
-        outs = ctx.driver.ask(reqs + ka_reqs)
+        outs = ctx.driver.ask(reqs + ka_reqs + lts[0])
     except leanio.LeanError as e:
         ctx.tie_fail(f"Lean driver failed: {e}", {"log": e.log})
         return
     for impl, out, wh, fl in zip(impls, outs[:len(reqs)], wheres, flags):
         ctx.compare("C13 process_peering_event call", impl, model_view(out, fl), wh)
-    for impl, out, wh in zip(ka_impls, outs[len(reqs):], ka_where):
+    for impl, out, wh in zip(ka_impls, outs[len(reqs):len(reqs) + len(ka_reqs)], ka_where):
         ctx.compare("C13 keep-alive period (simulation)", impl, out[1] if out and out[0] == "ok" else out, wh)
+    for req, impl, out, wh in zip(lts[0], lts[1], outs[len(reqs) + len(ka_reqs):], lts[2]):
+        m = out[1] if out and out[0] == "ok" else out
+        if req[0] == "C13.stale" and isinstance(m, dict):
+            m = {"status": m["status"], "paused": m["paused"]}
+        ctx.compare("C13 transition system: " + ("write semantics" if req[0] == "C13.write" else "stale-view step"), impl, m, wh)
+        ctx.case(key={"lts": req[0], "n": min(len(req[1]) if isinstance(req[1], list) else len(req[1]["current"]), 3)}, nontrivial=True)
     ctx.count("histories", "run", len(histories))
 
 
